@@ -1014,8 +1014,22 @@ RULE = (
     'dict on a World; the same as the transform function of a WorldHandle; '
     'WorldFromFileHandle on a generated JSON file with the handle stored at '
     "root key 'w', under the composite key 'worlds/w' with an implicit "
-    'sub-map, and under an explicitly assigned sub-map) and compared with a '
+    'sub-map, and under an explicitly assigned sub-map) - part "structure" '
+    "adds a 6th, 'file_extra': the file handle at root key 'w' with one more "
+    'transform function appended (populate_world_from_dict of a dictionary '
+    'with one entity "hud" owning one Hnd), expected content = file '
+    'description + that entity, every Hnd (of the file and of the further '
+    'function) logging on_add once then on_world_load(handle, world) once '
+    'after enabling - and compared with a '
     'table oracle (menu value -> object the component must receive).  '
+    'Every case of a file entry whose description holds a $res{a.b} / '
+    '$handle{a.b} marker goes on, after the first load and all its checks, '
+    'with the step "reload": root["a/b"] = a fresh handle, clear() on the '
+    'world handle, root[key] again, and every clause is evaluated on the '
+    'second world against the tree as it is then (the new handle / what the '
+    'new handle loads, by identity; the other values as before; callbacks '
+    'with the second world); such a case contains its single-load case, '
+    'which is therefore not listed separately.  '
     'Argument values: 13-value menu (int, float, null, plain string, '
     '"$notref", marker not at the start, marker inside a nested list, dict, '
     '${mod.OBJ}, ${mod.Cls.attr}, ${pkg.sub.OBJ}, $res{a.b}, $handle{a.b}).  '
@@ -1027,9 +1041,11 @@ RULE = (
     '{component, processor} x 5 entries.  Part "structure": processor lists '
     '= every sub-list of {ProcA variant, ProcB} in both orders x entity '
     'lists of 0-2 entities (3 in the thorough part structure-3), each id in '
-    '{absent, 7, "p1", 1} (ids distinct, 1 never after an id-less entity), '
+    '{absent, 7, "p1", 1, 0, ""} (ids distinct, 1 never after an id-less '
+    'entity; 0 and "" are false in a boolean context and equal to no '
+    'automatic id 1, 2, ...), '
     'each with 0-2 distinct component types of {Plain variant, Hnd} in both '
-    'orders x empty keys omitted / written x 5 entries; Plain / ProcA '
+    'orders x empty keys omitted / written x 6 entries; Plain / ProcA '
     'variants are fixed argument lists named in the part parameters.  Part '
     '"extra-forms": ${name} of a str whose text is "$res{a.b}", of a '
     'threading.Lock and of a module, one argument, positional or keyword, '
@@ -1038,15 +1054,32 @@ RULE = (
     'against importlib.import_module + getattr, called twice.  A case is '
     'distinct by its JSON text; non-trivial = it passed the oracle while '
     'exercising a named shortcut (reference kinds, id kinds, handler '
-    'component, handle placement).')
+    'component, handle placement, further transform function, reload after '
+    'the resource was replaced).')
 
 ASSUMPTIONS = [
     'out of the alphabet: malformed markers (unterminated, trailing text '
     'after the closing brace, empty or unresolvable names, paths that name '
     'no handle), duplicate component types within one entity, duplicate '
     'processor types, duplicate entity ids - an explicit id 1 is only listed '
-    'before id-less entities -, rebinding a named object between loads (the '
-    'lru_cache of object_from_string is cleared around every case)',
+    'before id-less entities -, rebinding a named ${...} python object '
+    'between loads (object_from_string is documented as cached; its '
+    'lru_cache is cleared around every case, never inside one)',
+    'the resource tree, unlike the named python objects, may change between '
+    'two loads: the reload step replaces the handle stored at the one path '
+    'the menu refers to (a/b) by plain assignment; removing the path, '
+    'replacing a handle by a sub-map or moving the world handle itself '
+    'between the loads is not in the alphabet.  What clear() does to the '
+    'first world, and the state of the replaced handle, are not asked',
+    'falsy identifiers are the int 0 and the empty string; 0.0 and False '
+    '(equal to 0 as dictionary keys) and ids that are equal across types '
+    '(1 / 1.0 / True) are not in the id menu',
+    "the further transform function of 'file_extra' is the documented "
+    'populate_world_from_dict on real types, run after the file loader; it '
+    'adds no processor and its entity id "hud" is in no id menu, so it '
+    'never collides with the file description.  How many times '
+    'on_world_load is *dispatched* is not asked, only what each handler '
+    'component has logged once the world is enabled',
     'the dict entry points receive the resolved description (real types, '
     'and the named object / loaded resource / handle where the file has a '
     'marker); whether populate_world_from_dict itself should resolve marker '
@@ -1087,7 +1120,13 @@ def run(tier, rep):
                      composite_key_handle=1, submap_key_handle=1,
                      dict_entry=1, dict_real_object_arg=1,
                      default_processors=1, ofs_nested_attr=1,
-                     ofs_submodule=1)
+                     ofs_submodule=1,
+                     falsy_id=1, zero_id=1, empty_string_id=1,
+                     falsy_id_next_to_auto_id=1,
+                     extra_transform_function=1,
+                     extra_transform_after_file_handler=1,
+                     reload_after_resource_replaced=1,
+                     res_ref_after_replace=1, handle_ref_after_replace=1)
     saved = {name: sys.modules.get(name) for name in _MODULE_NAMES}
     _SCRATCH = _make_scratch()
     try:
@@ -1099,6 +1138,10 @@ def run(tier, rep):
         rep.extra['c15_cases_per_part'] = sizes
         rep.extra['c15_menu'] = dict(zip(KINDS + EXTRA_KINDS,
                                          MENU + EXTRA_MENU))
+        rep.extra['c15_id_menu'] = IDS
+        rep.extra['c15_case_forms'] = [
+            '(entry, sparse, processors, entities)',
+            '(entry, sparse, processors, entities, steps)']
     finally:
         shutil.rmtree(_SCRATCH, ignore_errors=True)
         _SCRATCH = None
